@@ -141,7 +141,10 @@ def search_step(seed, n):
         H, b = dense_normal_equations(g)
         free = np.concatenate([np.arange(v.gradient_index, v.gradient_index + v.pose.COMPACT_DIMENSIONALITY) for v in g._vertices if not v.fixed] or [np.array([], dtype=int)]).astype(int)
         before = [(v, np.array(v.pose)) for v in g._vertices]
-        quiet_optimize(g, tol=0.0, max_iter=1, fix_first_pose=False)
+        try:
+            quiet_optimize(g, tol=0.0, max_iter=1, fix_first_pose=False)
+        except Exception as ex:  # noqa
+            return dict(kind="step", what="optimize raised %s: %s" % (type(ex).__name__, ex), match="optimize-raised", desc=desc), ev, skipped
         ev += 1
         for v, p0 in before:
             if v.fixed and np.array(v.pose).tobytes() != p0.tobytes():
@@ -208,6 +211,28 @@ def search_fixed(seed, n):
         for v, p0, p1 in zip(g._vertices, before, poses(g)):
             if v.fixed and p0.tobytes() != p1.tobytes():
                 return dict(kind="fixed", what="fixed vertex moved", match="fixed-vertex-moved", scenario=scenario, vertex=v.id, before=p0.tolist(), after=p1.tolist(), fix_first_pose=ffp, desc=desc), ev, outcomes
+        # second call on the same Graph object after the caller changed the fixed flags (no stale fixed set)
+        if scenario in ("normal", "isolated-fixed") and oc != "nan" and len(g._vertices) >= 3:
+            newflags = [rng.random() < 0.4 for _ in g._vertices]
+            if not any(newflags):
+                newflags[rng.randrange(len(newflags))] = True
+            for v, f in zip(g._vertices, newflags):
+                v.fixed = f
+            # reference: a fresh Graph object in the same state
+            dref = dict(desc, vertices=[dict(dv, vals=np.asarray(v.pose).tolist(), fixed=bool(f)) for dv, v, f in zip(desc["vertices"], g._vertices, newflags)])
+            gref = G.rebuild(dref)
+            before2 = poses(g)
+            try:
+                quiet_optimize(g, tol=0.0, max_iter=2, fix_first_pose=False)
+                quiet_optimize(gref, tol=0.0, max_iter=2, fix_first_pose=False)
+            except Exception as e:  # noqa
+                return dict(kind="fixed", what="second optimize raised %s" % type(e).__name__, match="optimize-raised", scenario=scenario, desc=desc), ev, outcomes
+            ev += 1
+            for v, f, p0, p1, pr in zip(g._vertices, newflags, before2, poses(g), poses(gref)):
+                if f and p0.tobytes() != p1.tobytes():
+                    return dict(kind="fixed", what="fixed vertex moved in a second optimize call", match="fixed-vertex-moved", scenario=scenario, vertex=v.id, desc=desc), ev, outcomes
+                if np.all(np.isfinite(pr)) and not np.allclose(p1, pr, rtol=0, atol=1e-9 * (1 + np.max(np.abs(pr)))):
+                    return dict(kind="fixed", what="second optimize call on the same Graph differs from a fresh Graph in the same state (stale fixed set?)", match="fixed-set-stale", scenario=scenario, vertex=v.id, fixed_now=bool(f), got=p1.tolist(), fresh=pr.tolist(), flags_before=flags1, flags_now=newflags, desc=desc), ev, outcomes
         if scenario == "isolated-fixed" and oc == "nan":
             # the same graph without the extra fixed vertex must also be NaN, else fixing made it unsolvable
             d2 = dict(desc)
